@@ -76,6 +76,16 @@ Qed.
 Theorem gen_pack_clean : forall r s, v_dirty s = 0 -> pack r s = mk 0 0 0 0 0 0 0.
 Proof. intros r s H. unfold pack. rewrite H. reflexivity. Qed.
 
+(* the four derived assignments (average, avg, variance with SC_MAX (.., 0.), variance_mean) over the rationals: variance_mean is
+   the CLAMPED variance / count (`derived`; C13_variance_mean_of_clamped).  Stated before the Z slice of the same statements so
+   that a change of this arithmetic is reported here first. *)
+Theorem gen_derived : forall s q c,
+  var_derived_q (inject_Z s) (inject_Z q) (inject_Z c) = derived s q c.
+Proof.
+  intros. unfold var_derived_q, derived, q0.
+  destruct (Qle_bool (inject_Z q / inject_Z c - inject_Z s / inject_Z c * (inject_Z s / inject_Z c)) (inject_Z 0)); reflexivity.
+Qed.
+
 (* the post-processing loop for one variable.  The five floating outputs are shown as the generated terms over the
    function parameters fdiv / fsqrt (any functions); their arithmetic over Q is gen_derived below. *)
 Definition post_codes (fdiv : Z -> Z -> Z) (fsqrt : Z -> Z) (dirty f0 f1 f2 : Z) (a v sd vm sdm : Z) : Z * Z * Z * Z * Z :=
@@ -100,14 +110,6 @@ Proof.
   destruct (cnt g =? 0) eqn:E; cbn [negb].
   - apply Z.eqb_eq in E. rewrite E. reflexivity.
   - destruct (derived (sm g) (sq g) (cnt g)) as [[x y] z]. reflexivity.
-Qed.
-
-(* the same four assignments (average, avg, variance with SC_MAX (.., 0.), variance_mean) over the rationals *)
-Theorem gen_derived : forall s q c,
-  var_derived_q (inject_Z s) (inject_Z q) (inject_Z c) = derived s q c.
-Proof.
-  intros. unfold var_derived_q, derived, q0.
-  destruct (Qle_bool (inject_Z q / inject_Z c - inject_Z s / inject_Z c * (inject_Z s / inject_Z c)) (inject_Z 0)); reflexivity.
 Qed.
 
 (* the record stride: room for 2 * nvars records of 7 doubles, flatout = record nvars of that room, the MPI datatype
